@@ -50,6 +50,16 @@ def parsePenOp (s : String) : Option PenOp :=
     some (.copyAttr tm)
   | 'd' :: rest => (String.ofList rest).toInt?.map fun n => .desc n none
   | 'D' :: rest => (String.ofList rest).toInt?.map fun n => .desc n (some 0x112233)
+  -- "hi-<n>": the high-intensity colour n + 8, rejected for n > 7
+  | 'h' :: rest => (String.ofList rest).toNat?.map fun n => if n > 7 then .rejected else .desc (Int.ofNat n + 8) none
+  -- colour names: n0 "red" (1), n1 "hi-red" (9), n2 "grey" (8), n3 "hi-grey" (8: only the first eight have a high-intensity form),
+  -- n4 an unknown name (rejected), n5 "blue#112233"
+  | ['n', '0'] => some (.desc 1 none)
+  | ['n', '1'] => some (.desc 9 none)
+  | ['n', '2'] => some (.desc 8 none)
+  | ['n', '3'] => some (.desc 8 none)
+  | ['n', '4'] => some .rejected
+  | ['n', '5'] => some (.desc 4 (some 0x112233))
   | _ => none
 
 def parseAction (s : String) : Option Action :=
